@@ -914,16 +914,17 @@ Example forever_example :
 Proof. vm_compute. reflexivity. Qed.
 
 (** ** the trace predicate as a proposition *)
-Inductive P_from : list (op * bool * bool) -> obs -> list obs -> Prop :=
+Inductive P_from : list (op * bool * bool * bool) -> obs -> list obs -> Prop :=
 | P_end_ops prev tr : P_from [] prev tr
 | P_end_tr h prev : P_from h prev []
-| P_step o chk lst h ob tr prev :
+| P_step o chk lst strict h ob tr prev :
     (chk = true -> gate_obs o ob = true) -> declared_step prev ob = true -> forever_step prev ob = true -> cascade_obs ob = true ->
-    P_from h ob tr -> P_from ((o, chk, lst) :: h) prev (ob :: tr).
+    (strict = true -> logout_step prev ob = true) ->
+    P_from h ob tr -> P_from ((o, chk, lst, strict) :: h) prev (ob :: tr).
 
 Lemma P_trace_from_spec : forall h prev tr i, P_trace_from h prev tr i = 0%N <-> P_from h prev tr.
 Proof.
-  induction h as [|[[o chk] lst] h IH]; intros prev tr i.
+  induction h as [|[[[o chk] lst] strict] h IH]; intros prev tr i.
   - cbn [P_trace_from]. split; [intros _; constructor | reflexivity].
   - destruct tr as [|ob tr]; cbn [P_trace_from].
     + split; [intros _; constructor | reflexivity].
@@ -937,8 +938,13 @@ Proof.
       2:{ split; [intro H; exfalso; lia | intro H; inversion H; subst; congruence]. }
       destruct (cascade_obs ob) eqn:C; cbn [negb].
       2:{ split; [intro H; exfalso; lia | intro H; inversion H; subst; congruence]. }
+      destruct (strict && negb (logout_step prev ob)) eqn:L.
+      { split; [intro H; exfalso; lia | intro H; inversion H; subst].
+        apply andb_true_iff in L. destruct L as [L1 L2].
+        match goal with Hl : strict = true -> logout_step prev ob = true |- _ => rewrite (Hl L1) in L2 end. discriminate L2. }
       rewrite IH. split; [intro H; constructor; try assumption | intro H; inversion H; subst; assumption].
-      intro Hc. subst chk. cbn [andb] in G. destruct (gate_obs o ob); [reflexivity | discriminate G].
+      * intro Hc. subst chk. cbn [andb] in G. destruct (gate_obs o ob); [reflexivity | discriminate G].
+      * intro Hc. subst strict. cbn [andb] in L. destruct (logout_step prev ob); [reflexivity | discriminate L].
 Qed.
 
 Lemma P_b_spec h tr : P_b h tr = true <-> P_from (flat_mask h) obs0 tr.
@@ -1018,6 +1024,29 @@ Lemma restored_outcomes :
   (map (fun e => (fst e, sv_status (snd e))) (ob_svcs (last_of cfg_reject_only)), ob_out (last_of cfg_reject_only),
    map (fun e => (fst e, sv_status (snd e))) (ob_svcs (last_of (cfg_of_bits false true false))), ob_out (last_of (cfg_of_bits false true false)))
   = ([(10, St_Freezing); (20, St_Available)], 0, [(10, St_Pause); (20, St_Available)], 2)%N.
+Proof. vm_compute. reflexivity. Qed.
+
+(** ** a locked proposal restored by the appchain's unpause
+    A freeze proposal of service 10 is pending, its logout is submitted and locks it (service logouting); the appchain
+    is frozen and activated with approval; UnPauseChainService restores paused proposals of EVERY registered service,
+    so the locked freeze proposal is restored and re-triggered from logouting: the service is freezing (usable) with
+    its logout still open; approving the logout then fires "approve" from freezing - frozen, not forbidden - and an
+    approved activation makes the logged-out service available.  Confirmed on the real code (corpus/C16_w09). *)
+Definition h_unpause_locked : list op :=
+  (setup ++ [OSvcOp 1 10 []; OSvcOp 3 10 []; OChainOp 1 1; OConclude 0 true; OChainOp 2 1; OConclude 0 true; OIbtp 10 20;
+             OConclude 0 true; OSvcOp 2 10 []; OConclude 0 true; OIbtp 10 20])%list.
+Definition cfg_code : cfg := cfg_of_bits6 false true false false true true.
+Definition cfg_code_no_restore : cfg := cfg_of_bits6 false true false false true false.
+
+Lemma unpause_locked_refuted : P_b h_unpause_locked (model_trace cfg_code h_unpause_locked) = false.
+Proof. vm_compute. reflexivity. Qed.
+Lemma unpause_locked_fixed : P_b h_unpause_locked (model_trace cfg_code_no_restore h_unpause_locked) = true.
+Proof. vm_compute. reflexivity. Qed.
+Lemma unpause_locked_outcomes :
+  let st f n := map (fun e => sv_status (snd e)) (firstn 1 (ob_svcs (nth n (model_trace f h_unpause_locked) obs0))) in
+  (st cfg_code 13, st cfg_code 15, st cfg_code 17, map ob_out (skipn 18 (model_trace cfg_code h_unpause_locked)),
+   st cfg_code_no_restore 13, st cfg_code_no_restore 15)%nat
+  = ([St_Freezing], [St_Frozen], [St_Available], [0%N], [St_Logouting], [St_Forbidden]).
 Proof. vm_compute. reflexivity. Qed.
 
 (** ** why the cascade is not proved "for ever after": withdrawing a LOCKED proposal
